@@ -14,6 +14,7 @@ from osq.mir import Program
 
 def keys_for(args):
     out, prop = args
+    from osq.engine import relocate
     units = facts.load(out)
     prog = Program(units)
     ctx = Ctx(prog, prop, "quick")
@@ -21,7 +22,11 @@ def keys_for(args):
         importlib.import_module(f"osq.rules.{prop.lower()}").run(ctx)
     except Exception as e:
         return prop, {f"CHECKER-CRASHED|{type(e).__name__}: {e}"}
-    keys = {o.key + " :: " + o.detail[:160] for o in ctx.obs if o.verdict == "violation"}
+    known_keys = {k["key"]: k for k in load_known() if k["property"] == prop and k.get("status", "known") == "known"}
+    viol = [o for o in ctx.obs if o.verdict == "violation" and o.key not in known_keys]
+    hits = {o.key for o in ctx.obs if o.verdict == "violation" and o.key in known_keys}
+    viol, _ = relocate(ctx, viol, known_keys, hits)
+    keys = {o.key + " :: " + o.detail[:160] for o in viol}
     keys |= {f"COVERAGE-LOST|{r}|{w} expected>={e} found={f}" for (r, w, e, f) in ctx.floors if f < e}
     keys |= {f"ANCHOR-LOST|{r}|{w}" for (r, w) in ctx.anchors_lost}
     return prop, keys
@@ -45,9 +50,14 @@ def main():
     mpath = os.path.join(V, "neutral", f"MATRIX-{suffix}.json")
     matrix = json.load(open(mpath)) if os.path.exists(mpath) else {}
     for pid in ids:
-        wt, outd = f"{prefix}/{pid}{suffix}", f"{prefix}/{pid}{suffix}-out"
+        only = None
+        if ":" in pid:
+            pid, only = pid.split(":")
+        wt = f"{prefix}/{pid}{suffix}"
         for n in (1, 2, 3):
-            diff = os.path.join(outd, f"refactor{n}.diff")
+            if only and str(n) != only:
+                continue
+            diff = os.path.join(V, "neutral", f"{pid}{suffix}", f"refactor{n}.diff")
             name = f"{pid}{suffix}{n}"
             if not os.path.exists(diff):
                 continue
